@@ -178,7 +178,8 @@ func init() {
 			c := e.c
 			b := a[0].(SliceV)
 			i := c.adaptLit(a[1], c.idx()).(Scalar)
-			return Scalar{c.sdef("vend", c.idx(), "(VarintEnd "+c.sliceArr(e.st, b)+" "+c.addIdx(b.Off, i.T)+")"), c.idx()}
+			// the result is an index of the slice b (relative to its offset), like every other index in a contract
+			return Scalar{c.sdef("vend", c.idx(), c.subIdx("(VarintEnd "+c.sliceArr(e.st, b)+" "+c.addIdx(b.Off, i.T)+")", b.Off)), c.idx()}
 		},
 		// VarintVal(b, i): the 64-bit value decoded from the varint starting at b[i] (low 64 bits, exactly what the decoders compute)
 		"VarintVal": func(e *SpecEnv, a []Val) Val {
